@@ -663,7 +663,18 @@ func (m *Module) renderInjectors(p *Pkg) []world.File {
 		}
 		if file == 0 {
 			for i := 0; i < p.CopyFns; i++ {
-				fmt.Fprintf(&b, "// copied%d is copied into the generated file.\nfunc copied%d_%d(err int) int {\n\tcleanup := err + %d\n\treturn cleanup\n}\n\n", i, p.Idx, i, i)
+				// parameters named like the packages the generated file imports: wire has to rename these locals
+				// (rewritePkgRefs walks its table of new names, a Go map, to avoid collisions among them)
+				extraParams, extraSum := "", ""
+				seenName := map[string]bool{p.Name: true, "err": true, "cleanup": true}
+				for _, o := range m.Pkgs {
+					if o.Idx < p.Idx && !seenName[o.Name] && !o.Facade && len(seenName) < 6 {
+						seenName[o.Name] = true
+						extraParams += ", " + o.Name + " int"
+						extraSum += " + " + o.Name
+					}
+				}
+				fmt.Fprintf(&b, "// copied%d is copied into the generated file.\nfunc copied%d_%d(err int%s) int {\n\tcleanup := err + %d%s\n\treturn cleanup\n}\n\n", i, p.Idx, i, extraParams, i, extraSum)
 			}
 		}
 		var anon []string
